@@ -43,6 +43,23 @@ def pmap(fn, items, procs=NPROC, max_timeouts=3):
                 if timeouts >= max_timeouts:
                     pool.terminate()
                     break
+    # a watchdog hit under load is not yet a non-terminating operation: the FIRST such case is run again, alone, with
+    # three times the budget; only if it finishes are the other hits re-examined the same way (so a real endless loop
+    # costs one extra long wait, not one per case)
+    hit = [i for i, r in enumerate(out) if isinstance(r, dict) and r.get("timeout")]
+    if hit:
+        global CASE_TIMEOUT
+        saved = CASE_TIMEOUT
+        CASE_TIMEOUT = saved * 3
+        try:
+            for i in hit:
+                with mp.get_context("fork").Pool(1) as pool1:
+                    r = pool1.apply(_guard, (items[i],))
+                if isinstance(r, dict) and r.get("timeout"):
+                    break
+                out[i] = r
+        finally:
+            CASE_TIMEOUT = saved
     return [r for r in out if r is not None]
 
 # ---------------------------------------------------------------- id-free views of dumps
